@@ -1,4 +1,4 @@
-(* net/url of go1.23 on ALL byte strings but two shapes: url.Parse, url.ParseRequestURI, URL.String, URL.Query /
+(* net/url of go1.23 on ALL byte strings: url.Parse, url.ParseRequestURI, URL.String, URL.Query /
    url.ParseQuery (EXTERNAL, modelled not verified; compared with the real package by Cases_C14_ulib,
    Cases_C15_ulib, Cases_C01_asiri on every run).
 
@@ -9,13 +9,19 @@
    - the query is cut at the first "?" (URL.RawQuery, kept raw; "?" with nothing behind it is ForceQuery);
    - a rest that does not begin with "/" makes an opaque URL (with scheme), an error (ParseRequestURI) or a
      relative path whose first segment must not hold a ":";
-   - "//" authority up to the next "/": host [":" digits], where the host may hold any byte >= 0x80, "%XX" escapes of
-     bytes >= 0x80 (and "%25"), and the ASCII bytes url.shouldEscape leaves alone in host mode; Host is DECODED;
+   - "//" authority up to the next "/": [userinfo "@"] host, cut at the LAST "@";
+     userinfo (url.validUserinfo): ASCII letters, digits and  - . _ : ~ ! $ & ' ( ) * + , ; = % @  only, cut at its
+     first ":" into name and password, both percent-decoded (URL.User; it is NOT part of URL.Host);
+     host [":" digits], where the host may hold any byte >= 0x80, "%XX" escapes of bytes >= 0x80 (and "%25"), and the
+     ASCII bytes url.shouldEscape leaves alone in host mode; Host is DECODED;
+     a host that begins with "[" (IP literal) ends at the LAST "]", followed by nothing or ":" digits; what lies between
+     the brackets is NOT checked to be an address; from the first "%25" inside on (RFC 6874 zone) an escape may decode
+     to "%", a space or any byte url.shouldEscape leaves alone in host mode; Host keeps brackets and port, decoded;
    - the path may hold ANY byte (bytes >= 0x80, spaces, quotes, ...); "%XX" must be two hex digits; URL.Path is
      DECODED; URL.RawPath keeps the spelling when it is not the default one;
    - the fragment is decoded likewise (a malformed escape there is an error; control bytes are allowed).
-   OUTSIDE the model (UUnmodelled, the model says nothing): an authority with userinfo ("@") and an IP literal
-   ("[").  Definitions only. *)
+   Nothing is outside the model any more: [UOut] / UUnmodelled are never answered (the constructor stays so that the
+   case analyses of the callers stay as they were).  Definitions only. *)
 From AP.Model Require Import Prelude Bytes Url IriEq Vocab Pred CollIri.
 
 Definition bang : byte := x21.
@@ -24,18 +30,22 @@ Definition space : byte := x20.
 Definition semi : byte := x3b.
 Definition atsign : byte := x40.
 Definition lbrack : byte := x5b.
+Definition rbrack : byte := x5d.
 Definition star : byte := x2a.
 
 (* ---------------------------------------------------------------- url.shouldEscape per mode (negated) *)
 Definition is_alnum (b : byte) : bool := is_alpha b || is_digit b.
 (* encodeHost: what URL.String leaves alone in a host, and what parseHost accepts unescaped *)
 Definition host_noescape (b : byte) : bool := is_alnum b || byte_in b (B "!$&'()*+,;=:[]<>""-_.~").
+(* encodeUserPassword *)
+Definition user_noescape (b : byte) : bool := is_alnum b || byte_in b (B "-_.~$&+,;=").
 (* encodeFragment *)
 Definition frag_noescape (b : byte) : bool := is_unreserved b || byte_in b (B "$&+,/:;=?@!()*").
 Definition esc_with (keep : byte -> bool) (b : byte) : bytes :=
   if keep b then [b] else [pct; hexdigit (byteN b / 16)%N; hexdigit (byteN b mod 16)%N].
 Definition host_escape (h : bytes) : bytes := flat_map (esc_with host_noescape) h.
 Definition frag_escape (f : bytes) : bytes := flat_map (esc_with frag_noescape) f.
+Definition user_escape (f : bytes) : bytes := flat_map (esc_with user_noescape) f.
 (* url.validEncoded *)
 Definition valid_enc (keep : byte -> bool) (s : bytes) : bool :=
   forallb (fun b => byte_in b (B "!$&'()*+,;=:@[]%") || keep b) s.
@@ -45,13 +55,15 @@ Definition opt_bytes_eqb (o : option bytes) (b : bytes) : bool :=
 
 (* ---------------------------------------------------------------- the URL value *)
 (* uu_query: None when there is no "?" (neither RawQuery nor ForceQuery); uu_rawpath / uu_rawfrag: URL.RawPath /
-   URL.RawFragment ("" when the spelling is the default one); no User (outside the model) *)
-Record uurl := { uu_scheme : bytes; uu_opaque : bytes; uu_host : bytes; uu_path : bytes; uu_rawpath : bytes;
+   URL.RawFragment ("" when the spelling is the default one); uu_user: URL.User - None = nil, else the name and the
+   password when one is set *)
+Definition uuser := option (bytes * option bytes).
+Record uurl := { uu_scheme : bytes; uu_opaque : bytes; uu_user : uuser; uu_host : bytes; uu_path : bytes; uu_rawpath : bytes;
                  uu_query : option bytes; uu_frag : bytes; uu_rawfrag : bytes; uu_omit : bool }.
 Inductive uparse := UUrl (u : uurl) | UErr | UOut.
 
 Definition uurl0 : uurl :=
-  {| uu_scheme := []; uu_opaque := []; uu_host := []; uu_path := []; uu_rawpath := [];
+  {| uu_scheme := []; uu_opaque := []; uu_user := None; uu_host := []; uu_path := []; uu_rawpath := [];
      uu_query := None; uu_frag := []; uu_rawfrag := []; uu_omit := false |}.
 
 (* ---------------------------------------------------------------- url.getScheme *)
@@ -69,7 +81,7 @@ Fixpoint get_scheme_go (first : bool) (acc : bytes) (whole s : bytes) : gscheme 
   end.
 Definition get_scheme (s : bytes) : gscheme := get_scheme_go true [] s s.
 
-(* ---------------------------------------------------------------- url.parseHost (no IP literal) *)
+(* ---------------------------------------------------------------- url.parseHost *)
 (* unescape(host, encodeHost): every "%" is followed by two hex digits, the first one >= 8 unless the escape is
    "%25"; every other ASCII byte is one shouldEscape leaves alone in host mode *)
 Fixpoint host_bytes_ok (s : bytes) : bool :=
@@ -85,16 +97,100 @@ Fixpoint host_bytes_ok (s : bytes) : bool :=
       else (negb (is_ascii c) || host_noescape c) && host_bytes_ok r
   end.
 
+(* unescape(zone, encodeZone): an escape is "%25" or decodes to a space or to a byte shouldEscape leaves alone in
+   host mode (so never to a byte >= 0x80); the other bytes as in host mode *)
+Fixpoint zone_bytes_ok (s : bytes) : bool :=
+  match s with
+  | [] => true
+  | c :: r =>
+      if Byte.eqb c pct then
+        match r with
+        | h :: l :: r' =>
+            is_hex h && is_hex l
+            && ((Byte.eqb h x32 && Byte.eqb l x35) || Byte.eqb (unhex2 h l) space || host_noescape (unhex2 h l))
+            && zone_bytes_ok r'
+        | _ => false
+        end
+      else (negb (is_ascii c) || host_noescape c) && zone_bytes_ok r
+  end.
+
+(* strings.LastIndex of one byte: Some (before, after) *)
+Fixpoint cut_last (c : byte) (s : bytes) : option (bytes * bytes) :=
+  match s with
+  | [] => None
+  | x :: r =>
+      match cut_last c r with
+      | Some (a, b) => Some (x :: a, b)
+      | None => if Byte.eqb x c then Some ([], r) else None
+      end
+  end.
+
 (* validOptionalPort on what follows the LAST ":" *)
 Definition last_colon_ok (h : bytes) : bool :=
   match cut_byte colon (rev h) with
   | (revport, Some _) => forallb is_digit revport
   | (_, None) => true
   end.
+(* validOptionalPort on what follows the "]" *)
+Definition valid_optional_port (p : bytes) : bool :=
+  match p with
+  | [] => true
+  | c :: ds => Byte.eqb c colon && forallb is_digit ds
+  end.
+
+Definition decode3 (a b c : bytes) : option bytes :=
+  match pct_decode a, pct_decode b, pct_decode c with
+  | Some x, Some y, Some z => Some (x ++ y ++ z)
+  | _, _, _ => None
+  end.
 
 (* None = error *)
 Definition parse_host (h : bytes) : option bytes :=
-  if last_colon_ok h && host_bytes_ok h then pct_decode h else None.
+  if is_prefix [lbrack] h then
+    match cut_last rbrack h with
+    | None => None                                                  (* "missing ']' in host" *)
+    | Some (inside, after) =>                                       (* host[:i], host[i+1:] *)
+        if valid_optional_port after then
+          match index (B "%25") inside with
+          | Some z =>
+              let h1 := firstn z inside in
+              let h2 := skipn z inside in
+              let h3 := rbrack :: after in
+              if host_bytes_ok h1 && zone_bytes_ok h2 && host_bytes_ok h3 then decode3 h1 h2 h3 else None
+          | None => if host_bytes_ok h then pct_decode h else None
+          end
+        else None
+    end
+  else if last_colon_ok h && host_bytes_ok h then pct_decode h else None.
+
+(* ---------------------------------------------------------------- url.parseAuthority *)
+(* url.validUserinfo *)
+Definition userinfo_char (b : byte) : bool := is_alnum b || byte_in b (B "-._:~!$&'()*+,;=%@").
+
+(* the userinfo before the last "@": name [":" password], both unescaped (mode encodeUserPassword: only the shape of
+   the escapes is checked) *)
+Definition parse_userinfo (ui : bytes) : option (bytes * option bytes) :=
+  if forallb userinfo_char ui then
+    match cut_byte colon ui with
+    | (name, None) => match pct_decode name with Some n => Some (n, None) | None => None end
+    | (name, Some pw) =>
+        match pct_decode name, pct_decode pw with
+        | Some n, Some p => Some (n, Some p)
+        | _, _ => None
+        end
+    end
+  else None.
+
+(* None = error; Some (URL.User, URL.Host) *)
+Definition parse_authority (au : bytes) : option (uuser * bytes) :=
+  match cut_last atsign au with
+  | None => match parse_host au with Some h => Some (None, h) | None => None end
+  | Some (ui, hostpart) =>
+      match parse_host hostpart with
+      | Some h => match parse_userinfo ui with Some up => Some (Some up, h) | None => None end
+      | None => None
+      end
+  end.
 
 (* ---------------------------------------------------------------- url.parse *)
 Definition first_segment_has_colon (rest : bytes) : bool :=
@@ -104,7 +200,7 @@ Definition first_segment_has_colon (rest : bytes) : bool :=
 Definition set_path (u : uurl) (p : bytes) : uparse :=
   match pct_decode p with
   | Some d =>
-      UUrl {| uu_scheme := uu_scheme u; uu_opaque := uu_opaque u; uu_host := uu_host u; uu_path := d;
+      UUrl {| uu_scheme := uu_scheme u; uu_opaque := uu_opaque u; uu_user := uu_user u; uu_host := uu_host u; uu_path := d;
               uu_rawpath := if bytes_eqb p (path_escape d) then [] else p;
               uu_query := uu_query u; uu_frag := uu_frag u; uu_rawfrag := uu_rawfrag u; uu_omit := uu_omit u |}
   | None => UErr
@@ -114,7 +210,7 @@ Definition url_parse_core (via_request : bool) (s : bytes) : uparse :=
   if existsb is_ctl s then UErr                                   (* "invalid control character in URL" *)
   else if via_request && negb (nonempty s) then UErr              (* "empty url" *)
   else if bytes_eqb s [star] then
-    UUrl {| uu_scheme := []; uu_opaque := []; uu_host := []; uu_path := [star]; uu_rawpath := [];
+    UUrl {| uu_scheme := []; uu_opaque := []; uu_user := None; uu_host := []; uu_path := [star]; uu_rawpath := [];
             uu_query := None; uu_frag := []; uu_rawfrag := []; uu_omit := false |}
   else
   match get_scheme s with
@@ -122,27 +218,23 @@ Definition url_parse_core (via_request : bool) (s : bytes) : uparse :=
   | GS scheme0 rest0 =>
       let scheme := lower scheme0 in
       let '(rest, query) := cut_byte qmark rest0 in
-      let base := {| uu_scheme := scheme; uu_opaque := []; uu_host := []; uu_path := []; uu_rawpath := [];
-                     uu_query := query; uu_frag := []; uu_rawfrag := []; uu_omit := false |} in
       let rooted := is_prefix [slash] rest in
       if negb rooted && nonempty scheme then
-        UUrl {| uu_scheme := scheme; uu_opaque := rest; uu_host := []; uu_path := []; uu_rawpath := [];
+        UUrl {| uu_scheme := scheme; uu_opaque := rest; uu_user := None; uu_host := []; uu_path := []; uu_rawpath := [];
                 uu_query := query; uu_frag := []; uu_rawfrag := []; uu_omit := false |}
       else if negb rooted && via_request then UErr                (* "invalid URI for request" *)
       else if negb rooted && first_segment_has_colon rest then UErr
       else if (nonempty scheme || (negb via_request && negb (is_prefix (B "///") rest))) && is_prefix (B "//") rest then
         let '(authority, pathrest) := cut_byte slash (skipn 2 rest) in
         let p := match pathrest with Some p => slash :: p | None => [] end in
-        if existsb (fun b => Byte.eqb b atsign) authority then UOut            (* userinfo *)
-        else if is_prefix [lbrack] authority then UOut                         (* IP literal *)
-        else match parse_host authority with
-             | Some h =>
-                 set_path {| uu_scheme := scheme; uu_opaque := []; uu_host := h; uu_path := []; uu_rawpath := [];
-                             uu_query := query; uu_frag := []; uu_rawfrag := []; uu_omit := false |} p
-             | None => UErr
-             end
+        match parse_authority authority with
+        | Some (user, h) =>
+            set_path {| uu_scheme := scheme; uu_opaque := []; uu_user := user; uu_host := h; uu_path := []; uu_rawpath := [];
+                        uu_query := query; uu_frag := []; uu_rawfrag := []; uu_omit := false |} p
+        | None => UErr
+        end
       else
-        set_path {| uu_scheme := scheme; uu_opaque := []; uu_host := []; uu_path := []; uu_rawpath := [];
+        set_path {| uu_scheme := scheme; uu_opaque := []; uu_user := None; uu_host := []; uu_path := []; uu_rawpath := [];
                     uu_query := query; uu_frag := []; uu_rawfrag := [];
                     uu_omit := nonempty scheme && rooted |} rest
   end.
@@ -160,7 +252,7 @@ Definition url_parse_u (s : bytes) : uparse :=
       | Some f =>
           match pct_decode f with                         (* setFragment *)
           | Some d =>
-              UUrl {| uu_scheme := uu_scheme u; uu_opaque := uu_opaque u; uu_host := uu_host u; uu_path := uu_path u;
+              UUrl {| uu_scheme := uu_scheme u; uu_opaque := uu_opaque u; uu_user := uu_user u; uu_host := uu_host u; uu_path := uu_path u;
                       uu_rawpath := uu_rawpath u; uu_query := uu_query u; uu_frag := d;
                       uu_rawfrag := if bytes_eqb f (frag_escape d) then [] else f; uu_omit := uu_omit u |}
           | None => UErr
@@ -183,15 +275,22 @@ Definition escaped_frag (u : uurl) : bytes :=
   then uu_rawfrag u
   else frag_escape (uu_frag u).
 
+(* Userinfo.String *)
+Definition userinfo_string (up : bytes * option bytes) : bytes :=
+  user_escape (fst up) ++ match snd up with Some pw => colon :: user_escape pw | None => [] end.
+Definition has_user (u : uurl) : bool := match uu_user u with Some _ => true | None => false end.
+
 Definition url_string_u (u : uurl) : bytes :=
   let head :=
     (match uu_scheme u with [] => [] | sc => sc ++ [colon] end) ++
     (if nonempty (uu_opaque u) then uu_opaque u
      else
        let auth :=
-         if nonempty (uu_scheme u) || nonempty (uu_host u) then
-           if uu_omit u && negb (nonempty (uu_host u)) then []
-           else (if nonempty (uu_host u) || nonempty (uu_path u) then B "//" else []) ++ host_escape (uu_host u)
+         if nonempty (uu_scheme u) || nonempty (uu_host u) || has_user u then
+           if uu_omit u && negb (nonempty (uu_host u)) && negb (has_user u) then []
+           else (if nonempty (uu_host u) || nonempty (uu_path u) || has_user u then B "//" else [])
+                ++ (match uu_user u with Some up => userinfo_string up ++ [atsign] | None => [] end)
+                ++ host_escape (uu_host u)
          else [] in
        let ep := escaped_path u in
        let sep := match ep with
@@ -207,7 +306,7 @@ Definition url_string_u (u : uurl) : bytes :=
 
 (* u.Path = p (RawPath stays, as in CollectionPaths.Split) *)
 Definition with_path_u (u : uurl) (p : bytes) : uurl :=
-  {| uu_scheme := uu_scheme u; uu_opaque := uu_opaque u; uu_host := uu_host u; uu_path := p; uu_rawpath := uu_rawpath u;
+  {| uu_scheme := uu_scheme u; uu_opaque := uu_opaque u; uu_user := uu_user u; uu_host := uu_host u; uu_path := p; uu_rawpath := uu_rawpath u;
      uu_query := uu_query u; uu_frag := uu_frag u; uu_rawfrag := uu_rawfrag u; uu_omit := uu_omit u |}.
 
 (* ---------------------------------------------------------------- url.ParseQuery / URL.Query *)
